@@ -402,3 +402,54 @@ def _in_print(module, n):
         if isinstance(a, ast.stmt):
             return False
     return False
+
+
+def check_eof_source(ctx, led, rule="C17.eof.source"):
+    """End of input ends the program cleanly only if the builder's read raises EOFError there:
+    every read in interactive.py must go through the builtin input()/raw_input() (directly or via a
+    module-level alias of them); sys.stdin.readline()/read() return '' at end of input instead, which
+    the answer loop takes for an empty answer and asks again for ever."""
+    m = ctx.repo.module("interactive")
+    f = ctx.repo.function("interactive", "ask_interactively")
+    from .rules_access import get_effects
+
+    E = get_effects(ctx)
+    reach = E.reachable([f.qualname], loose_methods=False)
+    n_reads = 0
+    for q in sorted(reach):
+        fn = E.by_qual[q]
+        mod = fn.module
+        for n in ast.walk(fn.node):
+            if not isinstance(n, ast.Call):
+                continue
+            src = norm_src(n.func)
+            if isinstance(n.func, ast.Attribute) and n.func.attr in ("readline", "read", "readlines") and "stdin" in src:
+                n_reads += 1
+                led.violation(
+                    rule,
+                    "%s::%s" % (q, short(n)),
+                    mod.where(n),
+                    "%s returns '' at end of input instead of raising EOFError: the answer loop treats it as an empty answer and "
+                    "repeats the question for ever (mandatory metric) or silently fills in Not Defined, and main()'s EOFError handler is never reached" % src,
+                )
+            elif isinstance(n.func, ast.Name):
+                r = ctx.repo.resolve_global(mod, n.func.id)
+                if n.func.id in ("input", "raw_input") and r is None:
+                    n_reads += 1
+                    led.ok(rule, "%s::%s" % (q, short(n)), mod.where(n), "builtin %s raises EOFError at end of input" % n.func.id)
+                elif r is not None and r[0] == "value":
+                    # alias bound at module level: every binding must be input / raw_input
+                    binds = [x for x in ast.walk(r[1].tree) if isinstance(x, ast.Assign) and any(isinstance(t, ast.Name) and t.id == n.func.id for t in x.targets)]
+                    vals = [norm_src(b.value) for b in binds]
+                    if vals and any(v in ("input", "raw_input") for v in vals):
+                        n_reads += 1
+                        led.check(
+                            all(v in ("input", "raw_input") for v in vals),
+                            rule,
+                            "%s::%s" % (q, short(n)),
+                            mod.where(n),
+                            "%s is bound to %s: not every binding is the builtin input()/raw_input()" % (n.func.id, vals),
+                        )
+    if n_reads == 0:
+        raise AnalysisError(rule, "no read of the user's answer found under ask_interactively", f.node, m)
+    return n_reads
